@@ -20,7 +20,7 @@ VARIANTS = [
          [(CB, '        raise JaqalError(f"Wrong number of arguments for map, found {args}")', '        raise ValueError(f"Wrong number of arguments for map, found {args}")')],
          ("C16.1", "build_map:raise:ValueError"), P),
     fire("c16-register-indexerror",
-         [(RG, '        if self.size is not None and idx >= self.size:\n            raise JaqalError("Index out of range.")', '        if self.size is not None and idx >= self.size:\n            raise IndexError("Index out of range.")')],
+         [(RG, '        if idx < 0 or (size is not None and idx >= int(size)):\n            raise JaqalError("Index out of range.")', '        if idx < 0 or (size is not None and idx >= int(size)):\n            raise IndexError("Index out of range.")')],
          ("C16.1", "resolve_qubit:raise:IndexError"), P),
     fire("c16-header-done-not-caught",
          [(PA, "    except HeaderParsingDone:\n        pass\n    finally:", "    finally:")],
@@ -61,5 +61,5 @@ VARIANTS = [
     silent("c16-raise-subclass-of-jaqalerror",
            [(CB, '        raise JaqalError(f"Wrong number of arguments for map, found {args}")', '        from jaqalpaq.parser.slyparse import JaqalParseError\n        raise JaqalParseError("<builder>", 0, 0, f"Wrong number of arguments for map, found {args}")')], P),
     silent("c16-catch-and-convert",
-           [(RG, '        if self.size is not None and idx >= self.size:\n            raise JaqalError("Index out of range.")', '        try:\n            if self.size is not None and idx >= self.size:\n                raise IndexError("Index out of range.")\n        except IndexError as ex:\n            raise JaqalError("Index out of range.") from ex')], P),
+           [(RG, '        if idx < 0 or (size is not None and idx >= int(size)):\n            raise JaqalError("Index out of range.")', '        try:\n            if idx < 0 or (size is not None and idx >= int(size)):\n                raise IndexError("Index out of range.")\n        except IndexError as ex:\n            raise JaqalError("Index out of range.") from ex')], P),
 ]
